@@ -21,10 +21,17 @@ VARIABLES l, pre, cur, ev,
           ucAnswered, \* ... and whose request carried USE-CANDIDATE
           nomRx,      \* history: <<gen, l, r>> on which an authenticated request with USE-CANDIDATE or a nomination value arrived
           chk,        \* history: per agent, time of the first tick in Checking that followed a tick (or the start) not in Checking
-          ltc         \* history: per agent, connection state at the end of its last tick
-vars == <<l, pre, cur, ev, idmap, answered, ucAnswered, nomRx, chk, ltc>>
+          ltc,        \* history: per agent, connection state at the end of its last tick
+          acc,        \* history: per agent, highest valued nomination a controlled agent had to accept: [v, l, r] (v = 0 none)
+          acked,      \* history: per agent, highest nomination value whose success response a controlling agent has processed
+          iss,        \* history: highest nomination value issued through the API and its pair [v, l, r]
+          base        \* history: per agent, [key, tally, cnt] = selected pair (l,r), harness tallies and that pair's counters when it became selected
+vars == <<l, pre, cur, ev, idmap, answered, ucAnswered, nomRx, chk, ltc, acc, acked, iss, base>>
 
 E0 == [a \in Agents |-> {}]
+SelKeyOf(o, a) == IF o[a].sel = 0 \/ ~\E p \in Rng(o[a].pairs) : p.id = o[a].sel THEN <<>>
+                  ELSE LET p == CHOOSE p \in Rng(o[a].pairs) : p.id = o[a].sel IN <<p.l, p.r>>
+NoNom == [v |-> 0, l |-> "", r |-> ""]
 IsDeliverOf(e) == e.ev = "Deliver"
 RcvOf(e) == OwnerOfDst(e.m.dst)
 ReqAuthOKOf(e, o) == LET b == RcvOf(e) IN e.m.user = <<o[b].gen, o[b].rgen>> /\ e.m.key = <<b, o[b].gen>>
@@ -36,6 +43,8 @@ Init == /\ l = 2 /\ pre = Tr[1].post /\ cur = Tr[1].post /\ ev = Tr[1]
         /\ idmap = [a \in Agents |-> {<<Tr[1].post[a].gen, p.id, p.l, p.r>> : p \in Rng(Tr[1].post[a].pairs)}]
         /\ answered = E0 /\ ucAnswered = E0 /\ nomRx = E0
         /\ chk = [a \in Agents |-> 0 - 1] /\ ltc = [a \in Agents |-> "Unknown"]
+        /\ acc = [a \in Agents |-> NoNom] /\ acked = [a \in Agents |-> 0] /\ iss = NoNom
+        /\ base = [a \in Agents |-> [key |-> <<>>, tally |-> <<0, 0, 0, 0>>, cnt |-> <<0, 0, 0, 0>>]]
 Step == /\ l <= Len(Tr) /\ l' = l + 1 /\ pre' = cur /\ cur' = Tr[l].post /\ ev' = Tr[l]
         /\ LET e == Tr[l]  reset == e.ev = "Reset" IN
            /\ idmap' = [a \in Agents |->
@@ -57,6 +66,25 @@ Step == /\ l <= Len(Tr) /\ l' = l + 1 /\ pre' = cur /\ cur' = Tr[l].post /\ ev' 
                  ELSE IF e.ev = "Tick" /\ e.ag = a /\ cur[a].conn = "Checking" /\ ltc[a] # "Checking" THEN e.post.now
                  ELSE chk[a]]
            /\ ltc' = [a \in Agents |-> IF reset THEN "Unknown" ELSE IF e.ev = "Tick" /\ e.ag = a THEN e.post[a].conn ELSE ltc[a]]
+           /\ acc' = [a \in Agents |->
+                 IF reset \/ (e.ev = "Restart" /\ e.ag = a) \/ e.post[a].role # cur[a].role THEN NoNom
+                 ELSE IF IsDeliverOf(e) /\ RcvOf(e) = a /\ e.m.kind = "req" /\ e.m.nom # 0 /\ SocketOpenOf(e, cur) /\ ReqAuthOKOf(e, cur)
+                         /\ cur[a].role = "controlled" /\ e.m.rolea # cur[a].role /\ (acc[a].v = 0 \/ e.m.nom > acc[a].v)
+                      THEN [v |-> e.m.nom, l |-> Unwire(e.m.dst), r |-> e.m.src]
+                 ELSE acc[a]]
+           /\ acked' = [a \in Agents |->
+                 IF reset \/ (e.ev = "Restart" /\ e.ag = a) THEN 0
+                 ELSE IF IsDeliverOf(e) /\ RcvOf(e) = a /\ e.m.kind = "succ" /\ SocketOpenOf(e, cur) /\ RespAuthOKOf(e, cur)
+                         /\ KnownIn(cur, a, e.m.src) /\ cur[a].role = "controlling"
+                         /\ \E x \in Rng(cur[a].pend) : x.tid = e.m.tid /\ x.dst = e.m.src /\ x.nom > acked[a]
+                      THEN (CHOOSE x \in Rng(cur[a].pend) : x.tid = e.m.tid /\ x.dst = e.m.src).nom
+                 ELSE acked[a]]
+           /\ base' = [a \in Agents |->
+                 LET k == SelKeyOf(e.post, a) IN
+                 IF k = base[a].key /\ ~reset THEN base[a] ELSE [key |-> k, tally |-> e.post[a].tally, cnt |-> e.post[a].selCnt]]
+           /\ iss' = IF reset THEN NoNom
+                      ELSE IF e.ev = "Renominate" /\ e.err = "" /\ e.v > iss.v THEN [v |-> e.v, l |-> e.l, r |-> e.r]
+                      ELSE iss
 Spec == Init /\ [][Step]_vars
 \* ---------------------------------------------------------------- helpers
 Count(s, x) == Cardinality({k \in 1..Len(s) : s[k] = x})
@@ -227,6 +255,56 @@ C20_SwitchOnValid ==
   (NomReq /\ ev.m.nom # 0 /\ (pre[Rcv].lastNom = 0 \/ ev.m.nom > pre[Rcv].lastNom)) =>
      /\ cur[Rcv].lastNom = ev.m.nom
      /\ \A p \in Rng(pre[Rcv].pairs) : (p.l = Unwire(ev.m.dst) /\ p.r = ev.m.src /\ p.st = "S") => cur[Rcv].sel = p.id
+\* once the pair of the highest accepted nomination becomes valid the controlled agent switches to it, whatever the priorities
+C20_SwitchWhenValidated ==
+  (IsDeliver /\ ev.m.kind = "succ" /\ SocketOpen /\ RespAuthOK /\ Matched /\ pre[Rcv].role = "controlled" /\ cur[Rcv].role = "controlled"
+   /\ acc[Rcv].v # 0 /\ acc[Rcv].l = Unwire(ev.m.dst) /\ acc[Rcv].r = ev.m.src) =>
+     \A p \in Rng(cur[Rcv].pairs) : \A qq \in Rng(pre[Rcv].pairs) :
+        (p.id = qq.id /\ p.l = acc[Rcv].l /\ p.r = acc[Rcv].r /\ qq.st # "S" /\ p.st = "S" /\ qq.nos) => cur[Rcv].sel = p.id
+\* the controlling side does not follow the success response of a nomination older than one it has already seen acknowledged
+C20_ControllingKeepsNewest ==
+  (IsDeliver /\ ev.m.kind = "succ" /\ SocketOpen /\ RespAuthOK /\ Matched /\ pre[Rcv].role = "controlling") =>
+     \A x \in Rng(pre[Rcv].pend) : (x.tid = ev.m.tid /\ x.dst = ev.m.src /\ x.nom # 0 /\ x.nom < acked[Rcv]) => cur[Rcv].sel = pre[Rcv].sel
+C20_QuiescentAgreement ==
+  (ev.ev = "DrainEnd" /\ ev.lossUsed = 0 /\ cur["A"].sel # 0 /\ cur["B"].sel # 0 /\ InSync(cur) /\ iss.v # 0 /\ cur["A"].role = "controlling") =>
+     (MirrorIn(cur) /\ SelKey(cur, "A") = <<iss.l, iss.r>>)
+C20_ValueOnWire ==
+  (ev.ev = "Renominate" /\ ev.err = "") =>
+     Cardinality({x \in Emitted : x.kind = "req" /\ x.nom = ev.v /\ x.uc /\ x.dst = ev.r /\ Unwire(x.src) = ev.l}) = 1
+C20_OnlyControllingEnabled ==
+  (ev.ev = "RenominateBad") => (ev.err # "" /\ Emitted = {} /\ AgentView(cur, ev.ag) = AgentView(pre, ev.ag))
+\* ---------------------------------------------------------------- C07
+NewData == {x \in Rng(cur.dnet) : Count(cur.dnet, x) > Count(pre.dnet, x)}
+ValidPairs(o, a) == {p \in Rng(o[a].pairs) : p.st = "S"}
+BestValidSet(o, a) == {p \in ValidPairs(o, a) : \A qq \in ValidPairs(o, a) : ~PrLess(p.pr, qq.pr)}
+WriteTargets(o, a) == IF o[a].sel # 0 THEN {PairOf(o, a, o[a].sel)} ELSE BestValidSet(o, a)
+\* data leaves through the selected pair (before selection: a best validated pair; none: the write fails), unmodified, once
+C07_WriteRoute ==
+  (ev.ev = "Write" /\ ~ev.stun) =>
+     IF WriteTargets(pre, ev.ag) = {} THEN ev.err # "" /\ ev.n = 0 /\ NewData = {}
+     ELSE /\ ev.err = "" /\ ev.n = ev.len
+          /\ Cardinality(NewData) = 1 /\ Len(cur.dnet) = Len(pre.dnet) + 1
+          /\ \A x \in NewData : /\ x.pid = ev.pid /\ x.len = ev.len /\ x.intact /\ x.from = ev.ag
+                                  /\ \E p \in WriteTargets(pre, ev.ag) : x.src = NatMap[p.l] /\ x.dst = p.r
+C07_NoSTUNWrite == (ev.ev = "Write" /\ ev.stun) => (ev.err # "" /\ ev.n = 0 /\ NewData = {} /\ Emitted = {})
+\* the reader gets exactly the non-STUN datagrams delivered from the address of a known remote candidate, once, unmodified
+DataRcv == OwnerOfDst(ev.d.dst)
+C07_ReadOnlyKnown ==
+  \A a \in Agents :
+     IF ev.ev = "DeliverData" /\ DataRcv = a /\ Unwire(ev.d.dst) \in Rng(pre[a].locals) /\ Known(pre, a, ev.d.src)
+     THEN cur[a].rd = <<[pid |-> ev.d.pid, len |-> ev.d.len, intact |-> TRUE]>>
+     ELSE cur[a].rd = <<>>
+\* data from a known source refreshes that source's liveness and nothing else; data from elsewhere changes nothing
+C07_DataInert ==
+  (ev.ev \in {"DeliverData", "VanishData", "DropData", "InjectData", "Write"}) =>
+     \A a \in Agents : /\ [AgentView(cur, a) EXCEPT !.rx = <<>>] = [AgentView(pre, a) EXCEPT !.rx = <<>>] /\ NoCallbacks(a)
+                        /\ \A r \in DOMAIN cur[a].rx : (cur[a].rx[r] # pre[a].rx[r]) =>
+                              (ev.ev = "DeliverData" /\ DataRcv = a /\ r = ev.d.src /\ Known(pre, a, r))
+C07_ConnCounters == \A a \in Agents : cur[a].bsent = cur[a].tally[2] /\ cur[a].brecv = cur[a].tally[4]
+\* while one pair stays selected, its packet/byte counters advance exactly like the harness tallies
+C07_PairCounters ==
+  \A a \in Agents : (cur[a].sel # 0 /\ SelKeyOf(cur, a) = base[a].key /\ ev.ev # "Reset") =>
+     \A i \in 1..4 : cur[a].selCnt[i] - base[a].cnt[i] = cur[a].tally[i] - base[a].tally[i]
 \* ---------------------------------------------------------------- reporting
 \* Every violated predicate is printed with the trace line it was violated at; the invariant itself never
 \* fails, so one TLC run lists all violations of a batch of traces (./check cuts the trace out and
@@ -265,9 +343,20 @@ P(n) == CASE n = "C01_Mirror" -> C01_Mirror []
         n = "C04_ReleasedOnFailed" -> C04_ReleasedOnFailed []
         n = "C20_AcceptMonotone" -> C20_AcceptMonotone []
         n = "C20_StaleIgnored" -> C20_StaleIgnored []
-        n = "C20_SwitchOnValid" -> C20_SwitchOnValid
+        n = "C20_SwitchOnValid" -> C20_SwitchOnValid []
+        n = "C20_SwitchWhenValidated" -> C20_SwitchWhenValidated []
+        n = "C20_ControllingKeepsNewest" -> C20_ControllingKeepsNewest []
+        n = "C20_QuiescentAgreement" -> C20_QuiescentAgreement []
+        n = "C20_ValueOnWire" -> C20_ValueOnWire []
+        n = "C20_OnlyControllingEnabled" -> C20_OnlyControllingEnabled []
+        n = "C07_WriteRoute" -> C07_WriteRoute []
+        n = "C07_NoSTUNWrite" -> C07_NoSTUNWrite []
+        n = "C07_ReadOnlyKnown" -> C07_ReadOnlyKnown []
+        n = "C07_DataInert" -> C07_DataInert []
+        n = "C07_ConnCounters" -> C07_ConnCounters []
+        n = "C07_PairCounters" -> C07_PairCounters
 Report == \A n \in Check : P(n) \/ PrintT(<<"VIOL", n, l - 1>>)
-AllPredicates == {"C01_Mirror", "C01_Converges", "C01_NeverWithoutPath", "C02_BadRequestInert", "C02_BadResponseInert", "C02_ErrorInert", "C02_IndicationOnlyLiveness", "C02_UnmatchedResponse", "C02_MatchedOnly", "C03_SelValidated", "C03_LiteSelectsOnNomination", "C03_NoUCFromControlled", "C03_LiteNeverRequests", "C03_NoDowngrade", "C05_Rule", "C05_OppositeAtEnd", "C06_UniqueIds", "C06_NoDupPairs", "C06_PairsFromCurrent", "C06_SelListed", "C06_IdStable", "C06_RemotesDeduped", "C06_NoResidue", "C06_SupersessionPreserves", "C04_TimingRule", "C04_CheckingDeadline", "C04_LifecycleStrict", "C04_Lifecycle", "C04_FC04Seen", "C04_NotifiedIsActual", "C04_SelWhileConnected", "C04_ReleasedOnFailed", "C20_AcceptMonotone", "C20_StaleIgnored", "C20_SwitchOnValid"}
+AllPredicates == {"C01_Mirror", "C01_Converges", "C01_NeverWithoutPath", "C02_BadRequestInert", "C02_BadResponseInert", "C02_ErrorInert", "C02_IndicationOnlyLiveness", "C02_UnmatchedResponse", "C02_MatchedOnly", "C03_SelValidated", "C03_LiteSelectsOnNomination", "C03_NoUCFromControlled", "C03_LiteNeverRequests", "C03_NoDowngrade", "C05_Rule", "C05_OppositeAtEnd", "C06_UniqueIds", "C06_NoDupPairs", "C06_PairsFromCurrent", "C06_SelListed", "C06_IdStable", "C06_RemotesDeduped", "C06_NoResidue", "C06_SupersessionPreserves", "C04_TimingRule", "C04_CheckingDeadline", "C04_LifecycleStrict", "C04_Lifecycle", "C04_FC04Seen", "C04_NotifiedIsActual", "C04_SelWhileConnected", "C04_ReleasedOnFailed", "C20_AcceptMonotone", "C20_StaleIgnored", "C20_SwitchOnValid", "C20_SwitchWhenValidated", "C20_ControllingKeepsNewest", "C20_QuiescentAgreement", "C20_ValueOnWire", "C20_OnlyControllingEnabled", "C07_WriteRoute", "C07_NoSTUNWrite", "C07_ReadOnlyKnown", "C07_DataInert", "C07_ConnCounters", "C07_PairCounters"}
 Done == IF TLCGet("stats").diameter = Len(Tr) THEN TRUE
         ELSE Print(<<"MONITOR_STOPPED_AT", TLCGet("stats").diameter, Len(Tr)>>, FALSE)
 ====
